@@ -180,7 +180,7 @@ PROPS = {
                 "model prints every legal outcome of the race between the loss and the operation's consumption of already-queued chunks (the "
                 "implementation tests the error hand-off and the exited flag before the queue) and the implementation's outcome must be one of "
                 "them. Oracle: an error of connection/transport class promptly (< 600 ms with a 1.5 s timeout), never success with output other "
-                "than the dry run's, every later operation fails, the process survives (Close returns). Also: callback sends as the operation in flight; idle losses after unsolicited device output (log line + prompt already queued) followed by GetPrompt or a command.",
+                "than the dry run's, every later operation fails, the process survives (Close returns). Also: callback sends as the operation in flight; idle losses after unsolicited device output (log line + prompt already queued) followed by GetPrompt or a command. NETCONF: the stream ends or fails between two RPCs while writes still succeed (half-open): EVERY later RPC must report a connection/transport error promptly (replayed by the session model).",
         "level_text": "Model: reader EOF/error states and the operation's read-until taking its error continuation (Channel.step Eof/Ioerr), with the "
                       "same all-schedule lemmas as C05; tied to the code by replaying real sessions with injected losses (membership in the model's "
                       "legal-outcome set).",
